@@ -21,11 +21,14 @@ for s in sorted(os.listdir("/verif/seeded")):
                     if o.startswith(("INCONCLUSIVE", "BROKEN")):
                         hs.append(o.split(":")[0])
         by = ", ".join(dict.fromkeys(hs))[:120]
+        tiers = sorted(set(r.get("tier", "quick") for r in det["runs"]))
+        res += " (%s)" % "/".join(tiers)
     summ = (m.get("summary") or "").replace("\n", " ").replace("|", "/")
     rows.append("| %s | %s | %s | %s |" % (s, summ[:150], res, by))
-print("| seed | change (sub-agent's summary, shortened) | quick check | harness(es) |")
+print("| seed | change (sub-agent's summary, shortened) | result (tier of the run) | harness(es) |")
 print("|---|---|---|---|")
 print("\n".join(rows))
 n = len(rows)
 c = sum(1 for r in rows if "**caught**" in r)
-print("\n%d of %d seeded changes are caught by the quick tier." % (c, n))
+q = sum(1 for r in rows if "**caught** (quick)" in r)
+print("\n%d of %d seeded changes are caught (%d of them by the quick tier, the others by the thorough-tier harness named)." % (c, n, q))
